@@ -18,7 +18,7 @@
    ColumnSortHelper.Sort model to the replay, C02_reorganisation_invisible is the corollary for flush / compaction /
    merges / reopen. *)
 From Coq Require Import ZArith List Bool Sorted.
-From OG Require Import C02.Model C02.Proofs C02.Corr C02.Refine C02.FileCursor C02.LayoutOk C02.CorrAgg C02.TagSet.
+From OG Require Import C02.Model C02.Proofs C02.Corr C02.Refine C02.FileCursor C02.LayoutOk C02.CorrAgg C02.TagSet C02.Limit.
 Import ListNotations.
 Open Scope Z_scope.
 
@@ -158,6 +158,15 @@ Theorem C02_tagset_stream_per_series : forall h, ops_allowed h = true -> forall 
   filter (ser s) (flat_stream nser (run false h) tmin tmax fs asc) = read_layout (run false h) s tmin tmax fs asc.
 Proof. exact flat_stream_series. Qed.
 Print Assumptions C02_tagset_stream_per_series.
+
+(* LIMIT / OFFSET pushed down to the store: an observation the evaluator accepts consists, series by series, of
+   PREFIXES of the shaped last-write-wins rows *)
+Theorem C02_limit_read_is_prefix_of_lww : forall h, ops_allowed h = true -> forall nser tmin tmax fs asc need per,
+  limit_ok nser (run false h) (tmin, tmax, fs, asc, need, per) = true ->
+  forall p s, In (p, s) (combine per (zrange nser)) ->
+  exists rest, shape tmin tmax fs asc (sel s (lww_table (writes_of h))) = p ++ rest.
+Proof. exact limit_ok_sound. Qed.
+Print Assumptions C02_limit_read_is_prefix_of_lww.
 
 (* THE LAYOUT PREDICATE IS AN INVARIANT, not an assumption: every op allowed by the planner / store predicate preserves
    it (sequences ascending; ordered files per-series time-increasing by position). The flush split at the flush time,
